@@ -2,14 +2,18 @@ use crate::engine::PropertyDef;
 use crate::fuzzglue::FuzzDef;
 
 pub mod c01;
+pub mod c02;
+pub mod c03;
 pub mod c04;
 pub mod c05;
+pub mod c07;
 pub mod c08;
 pub mod c09;
 pub mod c11;
 pub mod c13;
 pub mod c14;
 pub mod c15;
+pub mod c16;
 pub mod c18;
 pub mod c19;
 pub mod c20;
@@ -17,14 +21,18 @@ pub mod c20;
 pub fn registry() -> Vec<PropertyDef> {
   vec![
     PropertyDef { id: "C01", run: c01::run, replay: c01::replay },
+    PropertyDef { id: "C02", run: c02::run, replay: c02::replay },
+    PropertyDef { id: "C03", run: c03::run, replay: c03::replay },
     PropertyDef { id: "C04", run: c04::run, replay: c04::replay },
     PropertyDef { id: "C05", run: c05::run, replay: c05::replay },
+    PropertyDef { id: "C07", run: c07::run, replay: c07::replay },
     PropertyDef { id: "C08", run: c08::run, replay: c08::replay },
     PropertyDef { id: "C09", run: c09::run, replay: c09::replay },
     PropertyDef { id: "C11", run: c11::run, replay: c11::replay },
     PropertyDef { id: "C13", run: c13::run, replay: c13::replay },
     PropertyDef { id: "C14", run: c14::run, replay: c14::replay },
     PropertyDef { id: "C15", run: c15::run, replay: c15::replay },
+    PropertyDef { id: "C16", run: c16::run, replay: c16::replay },
     PropertyDef { id: "C18", run: c18::run, replay: c18::replay },
     PropertyDef { id: "C19", run: c19::run, replay: c19::replay },
     PropertyDef { id: "C20", run: c20::run, replay: c20::replay },
